@@ -363,6 +363,12 @@ func cmdSeed(args []string) int {
 		fmt.Println("DETECTED (load error):", err)
 		return 1
 	}
+	known := map[string]bool{}
+	for _, kf := range loadKnownFindings() {
+		if kf.Kind == "finding" {
+			known[kf.Obligation] = true
+		}
+	}
 	n := 0
 	for _, f := range out.funcs {
 		if f.EngineErr != "" {
@@ -372,6 +378,9 @@ func cmdSeed(args []string) int {
 	}
 	for _, o := range out.obls {
 		if !o.Cover && o.Status != "discharged" {
+			if known[o.Name] {
+				continue // a listed known finding of the unchanged tree, not an effect of the seeded change
+			}
 			n++
 			fmt.Printf("  FAIL %s [%s] %s\n", o.Name, o.Result.Status, o.Clause)
 		}
